@@ -149,7 +149,7 @@ class C09(Check):
             import traceback
             tb = traceback.extract_tb(e.__traceback__)
             where = f'{tb[-1].filename.split("/")[-1]}:{tb[-1].name}'
-            if rec.calls <= 1:
+            if not rec.events:
                 res['discard'] = f'model refused: {type(e).__name__} at {where}'
                 return res
             V('L-run', 'loud', type(e).__name__, f'raised {type(e).__name__}: {str(e)[:160]} at {where} after {rec.calls} evaluations')
